@@ -31,6 +31,9 @@ enum Act {
     ReadClose,
     Stall,
     Http404,
+    /// answer the upgrade request with another complete HTTP response (what a server that does not recognise the client -
+    /// wrong key, wrong protocol version - hands out from its backend)
+    HttpStatus(u16),
     ForwardCut(u64),
     ForwardWsClose(u64),
     ForwardBlackhole(u64),
@@ -102,6 +105,18 @@ async fn gate(listener: TcpListener, server: SocketAddr, script: Vec<Act>, log: 
                     let mut b = [0u8; 2048];
                     let _ = tokio::time::timeout(Duration::from_millis(500), c.read(&mut b)).await;
                     c.write_all(b"HTTP/1.1 404 Not Found\r\ncontent-length: 0\r\n\r\n").await.ok();
+                    c.shutdown().await.ok();
+                }
+                Act::HttpStatus(code) => {
+                    let mut b = [0u8; 2048];
+                    let _ = tokio::time::timeout(Duration::from_millis(500), c.read(&mut b)).await;
+                    let (reason, extra) = match code {
+                        200 => ("OK", ""),
+                        301 => ("Moved Permanently", "location: /elsewhere\r\n"),
+                        500 => ("Internal Server Error", ""),
+                        _ => ("Service Unavailable", ""),
+                    };
+                    c.write_all(format!("HTTP/1.1 {code} {reason}\r\n{extra}content-length: 2\r\ncontent-type: text/plain\r\n\r\nok").as_bytes()).await.ok();
                     c.shutdown().await.ok();
                 }
                 Act::ForwardCut(_) | Act::ForwardWsClose(_) | Act::ForwardBlackhole(_) | Act::ForwardSwallowCut(..) | Act::UpgradeThenSwallowCut(_) | Act::Healthy => {
@@ -460,6 +475,9 @@ fn scenarios(rng: &mut Rng64, thorough: bool) -> Vec<Scenario> {
         Scenario { name: "retry-limit-3", script: vec![Act::Rst; 12], max_retry_count: 3, max_retry_interval: 800, converse_at: None, udp_after_ms: None, expect_exit: Some("MaxRetryCountReached"), observe_ms: 5000 },
         Scenario { name: "retry-limit-1-close", script: vec![Act::Close; 12], max_retry_count: 1, max_retry_interval: 800, converse_at: None, udp_after_ms: None, expect_exit: Some("MaxRetryCountReached"), observe_ms: 3000 },
         Scenario { name: "non-retryable-404", script: vec![Act::Http404; 4], max_retry_count: 0, max_retry_interval: 400, converse_at: None, udp_after_ms: None, expect_exit: Some("Tungstenite"), observe_ms: 2500 },
+        Scenario { name: "non-retryable-http-200", script: vec![Act::HttpStatus(200); 4], max_retry_count: 0, max_retry_interval: 400, converse_at: None, udp_after_ms: None, expect_exit: Some("Tungstenite"), observe_ms: 2500 },
+        Scenario { name: "non-retryable-http-503", script: vec![Act::HttpStatus(503); 4], max_retry_count: 2, max_retry_interval: 400, converse_at: None, udp_after_ms: None, expect_exit: Some("Tungstenite"), observe_ms: 2500 },
+        Scenario { name: "non-retryable-http-301", script: vec![Act::HttpStatus(301); 4], max_retry_count: 0, max_retry_interval: 400, converse_at: None, udp_after_ms: None, expect_exit: Some("Tungstenite"), observe_ms: 2500 },
         Scenario { name: "stall-then-healthy", script: vec![Act::Stall, Act::Healthy], max_retry_count: 0, max_retry_interval: 400, converse_at: Some(300), udp_after_ms: None, expect_exit: None, observe_ms: 3500 },
         Scenario { name: "cut-resets-backoff", script: vec![Act::Rst, Act::Rst, Act::ForwardCut(300), Act::Rst, Act::Healthy], max_retry_count: 0, max_retry_interval: 800, converse_at: Some(2200), udp_after_ms: None, expect_exit: None, observe_ms: 4200 },
         Scenario { name: "orderly-close", script: vec![Act::ForwardWsClose(300), Act::Healthy], max_retry_count: 0, max_retry_interval: 400, converse_at: None, udp_after_ms: Some(900), expect_exit: None, observe_ms: 4500 },
